@@ -274,6 +274,9 @@ def run(rep, tier):
             clause_c(facts, rep, tag)
         # the lookup map is only a faithful index if its comparator is a strict weak order: Less() must order keys
         # like memcmp on every path, i.e. the three-way compare it calls is unsigned left-minus-right (shared with C14)
+        from . import c13
+        if cfg == 'K1':
+            c13.deep_copy_rule(facts, rep)     # CopyFrom / copy construction yield an independent container (shared with C13)
         from . import c14
         if cfg == 'K1':
             c14.clause_e(facts, rep, ('::avx2::',))
